@@ -217,6 +217,8 @@ def run(ctx):
     for t in range(nrand):
         n = int(r.randint(2, 9))
         rw.append(('random_und_w', rand_conn_und(r, n, 4)) if t % 2 == 0 else ('random_dir_strong', rand_strong_dir(r, n, 3)))
+    # the measures are invariant under rescaling of the weights: fractional weights (node strengths below 1) and large ones
+    rw += [(f + '/8', np.asarray(A, dtype=float) / 8.0) for f, A in rw[::3]] + [(f + '*64', np.asarray(A, dtype=float) * 64.0) for f, A in rw[1::5]]
     for fam, A in rw:
         n = len(A)
         if n < 2 or not connected(A):
